@@ -53,6 +53,9 @@ def classify_rounding(mod, expr, quotient):
             return "floor", "%s(ref / step)" % fn
         if fn in TRUNCS and arg == quotient:
             return "truncate", "%s(ref / step)" % fn
+        if (fn in ROUNDERS or fn in FLOORS or fn in TRUNCS) and arg is not None and set(arg.atoms()) <= set(quotient.atoms()) and set(arg.atoms()):
+            # a rounding of an expression in the reference and the step only -- but not of their quotient
+            return "wrong-quotient", "%s(%s)" % (fn, arg.key())
         return "unknown", ast.unparse(expr)
     if isinstance(e, ast.BinOp) and isinstance(e.op, ast.FloorDiv):
         return "floor", "ref // step"
@@ -397,6 +400,13 @@ def _grid_test_shape(mod, gx, ref, step, quotient, negated):
             for x, y in ((a, b), (b, a)):
                 if _is_rounded_multiple(mod, x, quotient, step) and _is_name(y, ref):
                     return "two-sided", "isclose(round(ref / step) * step, ref)"
+            for x, y in ((a, b), (b, a)):
+                if _is_name(y, ref) and {m.id for m in ast.walk(x) if isinstance(m, ast.Name) and not isinstance(getattr(m, "parent", None), ast.Call) or
+                                         (isinstance(m, ast.Name) and m.id in (ref, step))} >= {ref, step} \
+                        and {m.id for m in ast.walk(x) if isinstance(m, ast.Name)} <= {ref, step, "round", "int", "np", "numpy", "math"} \
+                        and any(isinstance(c, ast.Call) and (full_call_name(mod, c) or "") in ROUNDERS for c in ast.walk(x)):
+                    # the reference compared with a rounded expression of (reference, step) that is not round(ref / step) * step
+                    return "wrong-multiple", "isclose(%s, ref)" % ast.unparse(x)[:70]
             # isclose(ref/step, round(ref/step))
             for x, y in ((a, b), (b, a)):
                 try:
